@@ -379,6 +379,9 @@ func (m *ldbManager) Pop() error {
 	frontierIdentifier := GetFrontierIdentifier(m.Frontier())
 	rollbackPatch := m.getRollback(frontierIdentifier.Height)
 
+	m.changes.Lock()
+	defer m.changes.Unlock()
+
 	if err := ApplyPatch(NewLevelDBWrapper(m.ldb).Subset(frontierByte), rollbackPatch); err != nil {
 		return err
 	}
